@@ -71,6 +71,7 @@ static void child(void* arg)
 }
 
 static char** g_results;
+static SB g_ub;
 
 static void run_all(void)
 {
@@ -80,7 +81,9 @@ static void run_all(void)
   {
     SB out = {0};
     // run_isolated flattens newlines into spaces: tokens "<idx> <result>;" ...
+    g_ub_sink = &g_ub;
     int crashed = run_isolated(child, NULL, &out, NULL);
+    g_ub_sink = NULL;
     char* p = out.p ? out.p : (char*) "";
     size_t last = g_start; int have_last = 0; char* crash = NULL;
     char* cs = strstr(p, "CRASH:");
@@ -218,6 +221,16 @@ int main()
         printf(" w%zu:%s=%s", m->off, sb_str(&h), g_results[k] ? g_results[k] : "MISSING");
         sb_free(&h); k++;
       }
+    }
+    {
+      // distinct recoverable UBSan reports seen in the children of this line
+      char* save = NULL; SB seen = {0};
+      for (char* t = g_ub.p ? strtok_r(g_ub.p, " ", &save) : NULL; t; t = strtok_r(NULL, " ", &save))
+      {
+        char key[700]; snprintf(key, sizeof key, "|%s|", t);
+        if (!strstr(sb_str(&seen), key)) { sb_put(&seen, key); printf(" %s", t); }
+      }
+      sb_free(&seen); sb_free(&g_ub);
     }
     printf("\n"); fflush(stdout);
     for (size_t i = 0; i < g_nones; i++) free(g_results[i]);
